@@ -18,5 +18,7 @@ pub fn get_keys_by_filter(
             .for_each(|(k, v)| keys_to_update.push((k.clone(), v.clone())))
     };
     // Release the locker
+    #[cfg(nundb_verif)]
+    crate::verif_hooks::order_keys(&mut keys_to_update);
     keys_to_update
 }
